@@ -1,5 +1,7 @@
 import JenVerif.Tie.RegisterSrc
 import JenVerif.Tie.GuessAliasSrc
+import JenVerif.Tie.TextSrc
+import JenVerif.Tie.ImportsSrc
 /-
   Tie 1b, summary: every function of jennifer's import registry, TRANSLATED from /repo's Go source
   on this run (Gen/SrcRegistry.lean), equals the hand-written model function that the property
@@ -47,6 +49,19 @@ theorem register_src_returns_stored_name (tl : Str → Str) (ip : Nat → Bool) 
   rw [register_src_eq_model tl ip lib hl f p fuel hf]
   unfold register
   simp [hloc, h]
+
+/-- `(*File).renderImports` as written in /repo = the model's import block, for every file state
+    whose import table is a map (distinct keys — C05's invariant) -/
+theorem renderImports_src_eq_model (cfg : Cfg) (f : FileS) (out : Str) (hk : (f.imports.map (·.1)).Nodup) :
+    Gen.Src.renderImports cfg f out = out ++ renderImports cfg.isPrint f :=
+  renderImports_eq cfg f out (fun c o => comment_render_eq cfg c f o) hk
+
+/-- TRANSFER (C04/C19 stated about the code as written): in every state that satisfies the
+    registry invariant, the TRANSLATED renderImports prints exactly the model's import block -/
+theorem renderImports_src_of_inv (tl : Str → Str) (ip : Nat → Bool) (f : FileS) (out : Str)
+    (hI : RegistryInv.Inv (cfgOf tl ip) f) :
+    Gen.Src.renderImports (cfgOf tl ip) f out = out ++ renderImports ip f :=
+  renderImports_src_eq_model (cfgOf tl ip) f out hI.keysDistinct
 
 -- non-vacuity and a concrete evaluation of the TRANSLATED code: two paths ending in /d
 example : (Gen.Src.register (cfgOf id (fun _ => true)) Go.Lib.ascii 300
